@@ -87,12 +87,33 @@ type v6Exchange struct {
 	wantedAll []cid.Cid
 	honestIn  map[cid.Cid]bool // an all-honest message containing the block was processed while the request was alive
 	calls     int
+	sessions  int
 }
 
 var _ exchange.SessionExchange = (*v6Exchange)(nil)
 
-func (x *v6Exchange) NewSession(context.Context) exchange.Fetcher { return x }
-func (x *v6Exchange) Close() error                                { return nil }
+// NewSession: a session lives as long as the context it was made with. Like boxo's session, one whose context
+// is done answers GetBlocks with a channel that is closed at once, and no error.
+func (x *v6Exchange) NewSession(ctx context.Context) exchange.Fetcher {
+	x.mu.Lock()
+	x.sessions++
+	x.mu.Unlock()
+	return &v6Session{x: x, ctx: ctx}
+}
+
+type v6Session struct {
+	x   *v6Exchange
+	ctx context.Context
+}
+
+func (s *v6Session) GetBlock(ctx context.Context, c cid.Cid) (blocks.Block, error) {
+	return s.x.GetBlock(ctx, c)
+}
+
+func (s *v6Session) GetBlocks(ctx context.Context, cids []cid.Cid) (<-chan blocks.Block, error) {
+	return s.x.getBlocks(ctx, s.ctx, cids)
+}
+func (x *v6Exchange) Close() error { return nil }
 func (x *v6Exchange) NotifyNewBlocks(_ context.Context, b ...blocks.Block) error {
 	x.mu.Lock()
 	x.notified += len(b)
@@ -117,6 +138,10 @@ func (x *v6Exchange) GetBlock(ctx context.Context, c cid.Cid) (blocks.Block, err
 }
 
 func (x *v6Exchange) GetBlocks(ctx context.Context, cids []cid.Cid) (<-chan blocks.Block, error) {
+	return x.getBlocks(ctx, context.Background(), cids)
+}
+
+func (x *v6Exchange) getBlocks(ctx, sessCtx context.Context, cids []cid.Cid) (<-chan blocks.Block, error) {
 	if x.getErr {
 		x.w.logf("bitswap: GetBlocks refused")
 		return nil, errors.New("verif exchange: session is shut down")
@@ -126,8 +151,13 @@ func (x *v6Exchange) GetBlocks(ctx context.Context, cids []cid.Cid) (<-chan bloc
 	x.calls++
 	x.wantedAll = append(x.wantedAll, cids...)
 	x.mu.Unlock()
+	if sessCtx.Err() != nil {
+		x.w.logf("bitswap: GetBlocks on a session whose context is done: channel closed at once")
+		close(out)
+		return out, nil
+	}
 	x.w.wg.Add(1)
-	go x.run(ctx, cids, out)
+	go x.run(ctx, sessCtx, cids, out)
 	return out, nil
 }
 
@@ -136,7 +166,7 @@ func (x *v6Exchange) store(alt bool) *bitswap.Blockstore {
 	if alt {
 		e = x.sqr.Alt.EDS
 	}
-	return &bitswap.Blockstore{Getter: &v6MemStore{eds: map[uint64]*rsmt2d.ExtendedDataSquare{x.height: e}}}
+	return &bitswap.Blockstore{Getter: &v6MemStore{all: e}}
 }
 
 func v6Wrap(c cid.Cid, container []byte) []byte {
@@ -335,7 +365,7 @@ func (x *v6Exchange) receive(ctx context.Context, entries []*v6BsEntry, wanted m
 	}
 }
 
-func (x *v6Exchange) run(ctx context.Context, cids []cid.Cid, out chan blocks.Block) {
+func (x *v6Exchange) run(ctx, sessCtx context.Context, cids []cid.Cid, out chan blocks.Block) {
 	defer x.w.wg.Done()
 	defer close(out)
 	wanted := map[cid.Cid]bool{}
@@ -351,6 +381,9 @@ func (x *v6Exchange) run(ctx context.Context, cids []cid.Cid, out chan blocks.Bl
 		select {
 		case <-t.C:
 		case <-ctx.Done():
+			t.Stop()
+			return
+		case <-sessCtx.Done():
 			t.Stop()
 			return
 		case <-x.w.done:
@@ -405,6 +438,7 @@ func (x *v6Exchange) run(ctx context.Context, cids []cid.Cid, out chan blocks.Bl
 	}
 	select {
 	case <-ctx.Done():
+	case <-sessCtx.Done():
 	case <-x.w.done:
 	}
 }
@@ -424,9 +458,23 @@ type v6Case struct {
 	BL     bool     `json:"blacklisting"`     // peer manager blacklisting enabled
 	Extra  int      `json:"extra_peers"`      // shrex peers in the pool beyond the scripted answers
 	Local  string   `json:"local,omitempty"`  // bridge wiring: store getter in front misses | hits
+	// load cases (all peers honest): sizes of successive bursts of concurrent retrievals on the same getters,
+	// and when the getters are stopped: 0 never, -1 before the first burst, k after the k-th burst
+	Bursts []int `json:"bursts,omitempty"`
+	StopAt int   `json:"stop_at,omitempty"`
 }
 
 func (c v6Case) String() string {
+	if len(c.Bursts) > 0 {
+		s := fmt.Sprintf("%s sq%d bursts=%v peers=%d", c.Wiring, c.Sq, c.Bursts, c.Extra)
+		switch {
+		case c.StopAt < 0:
+			s += " getters stopped before the first burst"
+		case c.StopAt > 0:
+			s += fmt.Sprintf(" getters stopped after burst %d", c.StopAt)
+		}
+		return s
+	}
 	s := fmt.Sprintf("%s sq%d %s seq=%v", c.Wiring, c.Sq, c.Req, c.Seq)
 	if len(c.Seq2) > 0 {
 		s += fmt.Sprintf(" seq2=%v", c.Seq2)
@@ -503,8 +551,108 @@ func v6RunCase(t *testing.T, env *v6Env, c v6Case) (res v6Result) {
 		// process-wide worker pool whose goroutines cannot touch channels of a bubble, so this runs outside.
 		return v6Exec(env, c, false)
 	}
+	if len(c.Bursts) > 0 {
+		synctest.Test(t, func(*testing.T) { res = v6ExecBurst(env, c) })
+		return res
+	}
 	synctest.Test(t, func(*testing.T) { res = v6Exec(env, c, true) })
 	return res
+}
+
+// v6Wired is one set of getters wired the way the node wires them.
+type v6Wired struct {
+	getter shwap.Getter
+	shrexG *shrex_getter.Getter
+	lc     *v6Lifecycle
+	ex     *v6Exchange
+}
+
+// stop does what the node does on shutdown (fx OnStop hooks).
+func (wd *v6Wired) stop() {
+	if wd.shrexG != nil {
+		_ = wd.shrexG.Stop(context.Background())
+	}
+	for _, h := range wd.lc.hooks {
+		if h.OnStop != nil {
+			_ = h.OnStop(context.Background())
+		}
+	}
+}
+
+func v6Build(w *v6World, env *v6Env, sqr *v6Square, c v6Case, height uint64, nPeers int, bg context.Context) (*v6Wired, error) {
+	var (
+		shrexG *shrex_getter.Getter
+		bsG    *bitswap.Getter
+		ex     *v6Exchange
+		lc     = &v6Lifecycle{}
+		getter shwap.Getter
+	)
+	needShrex := c.Wiring == "shrex" || c.Wiring == "light" || c.Wiring == "bridge"
+	needBs := c.Wiring != "shrex"
+	if needShrex {
+		h := &v6Host{w: w}
+		cp := shrex.DefaultClientParameters()
+		cp.WithNetworkID(v6NetID)
+		client, err := shrex.NewClient(cp, h)
+		if err != nil {
+			return nil, err
+		}
+		mk := func(tag string) *peers.Manager {
+			gater, err := conngater.NewBasicConnectionGater(ds_sync.MutexWrap(datastore.NewMapDatastore()))
+			if err != nil {
+				panic(err)
+			}
+			p := *peers.DefaultParameters()
+			p.EnableBlackListing = c.BL
+			m, err := peers.NewManager(p, h, gater, tag)
+			if err != nil {
+				panic(err)
+			}
+			for i := 0; i < nPeers; i++ {
+				m.UpdateNodePool(peer.ID(fmt.Sprintf("verif-peer-%d", i)), true)
+			}
+			return m
+		}
+		shrexG = shrex_getter.NewGetter(client, mk("full"), mk("archival"), availability.RequestWindow)
+		if err := shrexG.Start(bg); err != nil {
+			return nil, err
+		}
+	}
+	if needBs {
+		ex = &v6Exchange{w: w, sqr: sqr, height: height, peers: c.Bs, getErr: c.BsErr, honestIn: map[cid.Cid]bool{}}
+		var bs blockstore.Blockstore
+		if c.Wiring == "bs-bridge" || c.Wiring == "bridge" {
+			bs = env.shared.bridgeBS
+		} else {
+			lbs, err := blockstoreFromDatastore(ds_sync.MutexWrap(datastore.NewMapDatastore()))
+			if err != nil {
+				return nil, err
+			}
+			bs = lbs
+		}
+		bsG = bitswapGetter(lc, ex, bs, Window(availability.RequestWindow))
+		for _, h := range lc.hooks {
+			if h.OnStart != nil {
+				if err := h.OnStart(bg); err != nil {
+					return nil, err
+				}
+			}
+		}
+	}
+	cfg := Config{UseShareExchange: true, UseBitswap: true}
+	switch c.Wiring {
+	case "shrex":
+		getter = shrexG
+	case "bs-light", "bs-bridge":
+		getter = bsG
+	case "light":
+		getter = lightGetter(shrexG, bsG, cfg)
+	case "bridge":
+		getter = bridgeGetter(store.NewGetter(env.shared.st), shrexG, bsG, cfg)
+	default:
+		return nil, errors.New("unknown wiring " + c.Wiring)
+	}
+	return &v6Wired{getter: getter, shrexG: shrexG, lc: lc, ex: ex}, nil
 }
 
 func v6Exec(env *v6Env, c v6Case, bubble bool) (res v6Result) {
@@ -525,86 +673,13 @@ func v6Exec(env *v6Env, c v6Case, bubble bool) (res v6Result) {
 	bg, stopAll := context.WithCancel(context.Background())
 
 	// --- getters, wired the way the node wires them
-	var (
-		shrexG *shrex_getter.Getter
-		bsG    *bitswap.Getter
-		ex     *v6Exchange
-		lc     = &v6Lifecycle{}
-		getter shwap.Getter
-	)
-	needShrex := c.Wiring == "shrex" || c.Wiring == "light" || c.Wiring == "bridge"
-	needBs := c.Wiring != "shrex"
-	if needShrex {
-		h := &v6Host{w: w}
-		cp := shrex.DefaultClientParameters()
-		cp.WithNetworkID(v6NetID)
-		client, err := shrex.NewClient(cp, h)
-		if err != nil {
-			res.Harness = err.Error()
-			stopAll()
-			return res
-		}
-		mk := func(tag string) *peers.Manager {
-			gater, err := conngater.NewBasicConnectionGater(ds_sync.MutexWrap(datastore.NewMapDatastore()))
-			if err != nil {
-				panic(err)
-			}
-			p := *peers.DefaultParameters()
-			p.EnableBlackListing = c.BL
-			m, err := peers.NewManager(p, h, gater, tag)
-			if err != nil {
-				panic(err)
-			}
-			for i := 0; i < len(c.Seq)+len(c.Seq2)+c.Extra; i++ {
-				m.UpdateNodePool(peer.ID(fmt.Sprintf("verif-peer-%d", i)), true)
-			}
-			return m
-		}
-		shrexG = shrex_getter.NewGetter(client, mk("full"), mk("archival"), availability.RequestWindow)
-		if err := shrexG.Start(bg); err != nil {
-			res.Harness = err.Error()
-			stopAll()
-			return res
-		}
-	}
-	if needBs {
-		ex = &v6Exchange{w: w, sqr: sqr, height: height, peers: c.Bs, getErr: c.BsErr, honestIn: map[cid.Cid]bool{}}
-		var bs blockstore.Blockstore
-		if c.Wiring == "bs-bridge" || c.Wiring == "bridge" {
-			bs = env.shared.bridgeBS
-		} else {
-			lbs, err := blockstoreFromDatastore(ds_sync.MutexWrap(datastore.NewMapDatastore()))
-			if err != nil {
-				res.Harness = err.Error()
-				stopAll()
-				return res
-			}
-			bs = lbs
-		}
-		bsG = bitswapGetter(lc, ex, bs, Window(availability.RequestWindow))
-		for _, h := range lc.hooks {
-			if h.OnStart != nil {
-				if err := h.OnStart(bg); err != nil {
-					res.Harness = err.Error()
-				}
-			}
-		}
-	}
-	cfg := Config{UseShareExchange: true, UseBitswap: true}
-	switch c.Wiring {
-	case "shrex":
-		getter = shrexG
-	case "bs-light", "bs-bridge":
-		getter = bsG
-	case "light":
-		getter = lightGetter(shrexG, bsG, cfg)
-	case "bridge":
-		getter = bridgeGetter(store.NewGetter(env.shared.st), shrexG, bsG, cfg)
-	default:
-		res.Harness = "unknown wiring " + c.Wiring
+	wd, err := v6Build(w, env, sqr, c, height, len(c.Seq)+len(c.Seq2)+c.Extra, bg)
+	if err != nil {
+		res.Harness = err.Error()
 		stopAll()
 		return res
 	}
+	shrexG, lc, ex, getter := wd.shrexG, wd.lc, wd.ex, wd.getter
 
 	hdr := &header.ExtendedHeader{
 		Commit:    &types.Commit{},
